@@ -92,11 +92,11 @@ example : (mkReport ⟨2, 5⟩ (some (.present ⟨3, 4⟩)) true).suggestion = s
 /-- **pred_total**: no modelled Where() predicate the (repaired) loader accepts panics at any site — single
 capture, typed nil, statement or `$*xs` list of any length: its outcome is a verdict or "not applicable".
 Corollary of `C02.pred_eq_spec` (same two hypotheses: the go/types scoping contract for `IsVariadicParam`
-and no expression list for `HasMethod` / `IdenticalTo`, which have no list case). -/
+and no expression list for `IdenticalTo`, which has no list case). -/
 theorem pred_total (p : PR.Pred) (f : PR.Site → Option (Res Bool)) (s : PR.Site)
     (h : PR.evalPred .repaired p = some f)
     (hv : p = .isVariadic → C02.ScopeOKCap s.cf s.ex)
-    (hr : ∀ r o, p = .rel r → (r = .hasMethod ∨ r = .identicalTo) → s.oracle = some o → o.onElems = none)
+    (hr : ∀ r o, p = .rel r → r = .identicalTo → s.oracle = some o → o.onElems = none)
     (k : Panic) : f s ≠ some (.panic k) := by
   rw [C02.pred_eq_spec p f s h hv hr]
   cases SpecC02.specPred p s <;> simp
